@@ -11,9 +11,9 @@ Python `None` as `~`, a raised `ValueError` as `!`.
   std urljoin <base> <url> <result>                       → ok
   std unquote|quote|quote_plus|unquote_plus <arg> <result> → ok
   std resolve <name> <address|!>                          → ok
-  init <hostname> <port|~> <scheme> <redirectable 0|1>    → effects
+  init <url> <hostname> <port|~> <scheme> <redirectable 0|1> (~ | <tls 0|1> <chost> <cport>)   → effects
   request <method> <path> <bodyhex> (<key> <value>)*      → effects
-  resp <status> <location|~> <clen> <blen>                → effects
+  resp <status> <location|~> <clen> <blen> <body>         → effects
   final                                                   → final <waited> <#redirects> <#responses> …
   region D34e <location>                                  → 1 | 0   (Lean predicate `lossyLocation`)
 effects: `none` or `;`-joined `close` | `open ip port tls` | `send ip port tls method target host body` |
@@ -93,6 +93,7 @@ def fmtSnap (s : Snap) : String :=
 
 def fmtRec (r : Rec) : String :=
   toString r.status ++ " " ++ (match r.location with | none => "~" | some l => hex l) ++ " " ++ fmtSnap r.req
+    ++ " " ++ bytesToHex r.body
 
 def fmtFinal (p : Patron) : String :=
   "final " ++ (if p.waited then "1" else "0") ++ " " ++ toString p.redirects.length ++ " " ++
@@ -172,13 +173,19 @@ def step (st : St) (line : String) : St × String :=
     match stdLine st.tbl rest with
     | some t => ({ st with tbl := t }, "ok")
     | none => (st, "bad-op")
-  | ["init", h, po, sc, rd] =>
+  | "init" :: u :: h :: po :: sc :: rd :: conn =>
     let port? : Option (Option Int) := if po == "~" then some none else (int? po).map some
-    match str? h, port?, str? sc with
-    | some h, some port, some sc =>
+    let conn? : Option (Option Connector) := match conn with
+      | ["~"] => some none
+      | [tls, ch, cp] => (match str? ch, int? cp with
+        | some ch, some cp => if tls == "1" then some (some (true, ch, cp)) else if tls == "0" then some (some (false, ch, cp)) else none
+        | _, _ => none)
+      | _ => none
+    match str? u, str? h, port?, str? sc, conn? with
+    | some u, some h, some port, some sc, some conn =>
       if rd != "0" && rd != "1" then (st, "bad-op") else
-      finish st (initPatron st.tbl.std h port sc (rd == "1"))
-    | _, _, _ => (st, "bad-op")
+      finish st (initPatron st.tbl.std u h port sc conn (rd == "1"))
+    | _, _, _, _, _ => (st, "bad-op")
   | "request" :: m :: pa :: b :: kv =>
     match str? m, str? pa, hexToBytes? b, pairs? kv with
     | some m, some pa, some b, some kv =>
@@ -187,15 +194,15 @@ def step (st : St) (line : String) : St × String :=
       | none => (st, "bad-op")
       | some p => finishOut st (Ioflo.Redirect.step st.tbl.std p (.request { method := m, path := pa, qargs := kv, body := b }))
     | _, _, _, _ => (st, "bad-op")
-  | ["resp", status, loc, clen, blen] =>
-    match status.toNat?, optStr? loc, clen.toNat?, blen.toNat? with
-    | some status, some loc, some clen, some blen =>
+  | ["resp", status, loc, clen, blen, body] =>
+    match status.toNat?, optStr? loc, clen.toNat?, blen.toNat?, hexToBytes? body with
+    | some status, some loc, some clen, some blen, some body =>
       if st.dead then (st, "dead") else
       match st.pat with
       | none => (st, "bad-op")
       | some p => finishOut st (Ioflo.Redirect.step st.tbl.std p
-          (.response { status := status, location := loc, clen := clen, blen := blen }))
-    | _, _, _, _ => (st, "bad-op")
+          (.response { status := status, location := loc, clen := clen, blen := blen, body := body }))
+    | _, _, _, _, _ => (st, "bad-op")
   | ["region", "D34e", loc] =>
     match str? loc with
     | some l => (st, if lossyLocation l then "1" else "0")
